@@ -13,9 +13,12 @@ from sa.layout import _subst_target
 from sa.decide import Walker, return_values, completions, cmp_parts
 from .c01 import _lay
 
-TECHNIQUE = ("provenance expansion + byte-layout normalisation of the init / metadata / chunk / brother-list messages "
-             "per operation context, same-block and order rules by reaching definitions, structural recognition of the "
-             "brothers sort and of the merge-mining slice table, constant agreement with bc_advance.h / bc_ancestor.h / bc.h")
+TECHNIQUE = ('provenance expansion + byte-layout normalisation of the init / metadata / chunk / brother-list '
+             'messages per operation context, same-block and order rules by reaching definitions, canonical list / '
+             'sort-key forms for the brothers sort and the ancestor strip, finite-domain evaluation of the '
+             'merge-mining slice table over field counts x flags, decision tables for the answer to the '
+             'brother-list metadata and for the chunk loop, layouts of the coinbase midstate, constant agreement '
+             'with bc_advance.h / bc_ancestor.h / bc.h')
 EXPLANATION = (
     "Static analysis of /repo's current source (nothing executed). Decides: init = u8(INIT)|u32be(len(blocks)); block "
     "metadata = u8(meta op)|u16be(rlp_mm_payload_size(block)) followed, iff the command is ADVANCE, by the hash of that same "
